@@ -82,6 +82,7 @@ class Control(BaseAPIClass):
             If `True` (`False`) the operator is applied at the corresponding
             time step *after* (*before*) a possible measurement of the state.
         """
+        control_operation = np.array(control_operation) # own copy
         if post:
             pre_post = 'post'
         else:
